@@ -299,7 +299,7 @@ def check_exception_atomic(ctx, fn, q):
     return n
 
 
-@rule("C09.exception-atomic", props=["C09"], min_instances=3, mutants=[
+@rule("C09.exception-atomic", props=["C09"], min_instances=9, mutants=[
     ("cache entry stored before the wrapper runs", ("operator_dict", "            keys_out, func = do_compile(self.codegen, *tapes)\n            func.__name__ = f'{func.__name__}_{len(self.algebra.numspace)}'\n            self.algebra.numspace[func.__name__] = self.algebra.wrapper(func) if self.algebra.wrapper else func\n            self.operator_dict[keys_in] = (keys_out, func)",
                                                     "            keys_out, func = do_compile(self.codegen, *tapes)\n            func.__name__ = f'{func.__name__}_{len(self.algebra.numspace)}'\n            self.operator_dict[keys_in] = (keys_out, func)\n            self.algebra.numspace[func.__name__] = self.algebra.wrapper(func) if self.algebra.wrapper else func")),
 ])
@@ -307,6 +307,45 @@ def exception_atomic(ctx):
     """A failing generation/compilation/wrapper leaves operator_dict and numspace untouched (TS)."""
     for q in GETITEMS:
         check_exception_atomic(ctx, ctx.func(q), q)
+    # the same by abstract interpretation: a failing generator / wrapper leaves both dictionaries empty
+    from ..absint import Obj, PyFunc, Raised, NoValue
+    from ..symenv import make_interp
+    from .c08 import GETITEMS as G8, tok
+    for q, (kind, n, gen) in G8.items():
+        fn = ctx.func(q)
+        for failing in ("generator", "wrapper"):
+            c = f"{q}#failing-{failing}"
+            cache, numspace = {}, {}
+            func = Obj("function", {"__name__": "generated_fn"})
+
+            def generate(codegen, *mvs, failing=failing):
+                if failing == "generator":
+                    raise Raised("RuntimeError")
+                return (tok("KEYS_OUT"), func)
+
+            def wrap(f):
+                raise Raised("RuntimeError")
+            alg = Obj("algebra", {"wrapper": Obj("wrapper", call=wrap), "numspace": numspace},
+                      {"multivector": lambda *a, **k: Obj("MultiVector", {"_keys": k.get("keys")})})
+            me = Obj(kind, {"algebra": alg, "operator_dict": cache, "codegen": tok("CODEGEN"), "codegen_symbolcls": tok("SYMBOLCLS")})
+            it = make_interp(ctx.repo)
+            it.instance_classes.update({"OperatorDict": "operator_dict.OperatorDict", "UnaryOperatorDict": "operator_dict.UnaryOperatorDict",
+                                        "Registry": "operator_dict.Registry"})
+            it.overrides[f"operator_dict.{gen}"] = PyFunc(generate, gen, True)
+            prev = it.class_call_hook
+            it.class_call_hook = lambda name, a, k: Obj("TapeRecorder", {"_keys": k.get("keys")}) if name == "TapeRecorder" else prev(name, a, k)
+            key = (tok("K0"), tok("K1")) if n == 2 else tok("K0")
+            try:
+                out = it.run(q, [me, key])
+            except NoValue as exc:
+                raise Unknown(c, str(exc), fn)
+            if out[0] != "raise":
+                raise Unknown(c, f"the failing {failing} did not propagate: {out!r}", fn)
+            if cache or numspace:
+                ctx.violation(c, f"a {failing} that raises leaves cache={len(cache)} / name-space={len(numspace)} entries behind: "
+                                 f"later calls with this key pattern use a half-built entry", fn)
+            else:
+                ctx.ok(c, fn)
 
 
 # --------------------------------------------------------------------------- storage writers
